@@ -16,7 +16,7 @@ class C01(GProp):
              'tephra-error/src/error/lexer.rs', 'tephra-error/src/error/delimit.rs', 'tephra-span/src/span.rs', 'tephra-span/src/source.rs']
     rule = ('seeded random grammars from every family (primitives, sequencing/choice, repetition, brackets, lists, recovery, '
             'captures, scoped combinators; documented argument preconditions respected) x texts over the FULL alphabet (empty, '
-            'leading/trailing filtered tokens, rejected chars, tabs, CR/LF/CRLF, 2-4 byte, wide and zero-width chars) x line '
+            'leading/trailing filtered tokens, rejected chars, tabs, CR/LF/CRLF, 2-4 byte, wide and zero-width chars; bracket-dense texts for the bracket family) x line '
             'endings x tab width 1..16 x sink on/off, every case with fmt=1: the initial lexer, every returned lexer, the returned '
             'error and every collected error are formatted (Display and Debug of the lexer; into_source_error + Display of errors) under '
             'catch_unwind; plus random lexer histories; any PANIC in the implementation\'s output is a violation (and must coincide '
@@ -44,6 +44,9 @@ class C01(GProp):
             elif k == 10: g = ['both', ['repeat', 0, 'inf', ['any', 'A', 'B', 'U']], ['either', 'eot', 'userfail']]
             else: g = ['unfiltered', ['both', ['maybe', ['pred', ['is', 'Ws']]], parsegen.gen_c06(r, 4)]]
             t = spangen.random_text(r, FULL, 16 if tier == 'quick' else 30)
+            if k == 2 and r.chance(2, 3):
+                # bracket-dense texts: runs of same-kind open brackets partly closed, then mismatched / missing / extra closes
+                t = spangen.random_text(r, ['lp', 'lk', 'lk', 'lk', 'lc', 'rp', 'rk', 'rk', 'rc', 'a', 'sp', 'semi', 'w3'], 12 if tier == 'quick' else 20)
             n += 1
             out.append(parsegen.parse_case('c%d' % n, t, g, le=r.choice(['lf', 'cr', 'crlf']), tab=1 + r.below(16),
                                            scanner=r.choice(['plain', 'plain', 'modal']),
